@@ -95,6 +95,7 @@ class World:
         self.net = Net(self.sched)
         self.patch = Patch(self.sched, self.net)
         self.watchdog = watchdog
+        self.ticker = 0.005
         self.d = None
         self.app_threads = []
         self.results = {}
@@ -103,6 +104,10 @@ class World:
     def __enter__(self):
         from bromelia.base import DiameterRequest
         import bromelia.bromelia as bb
+        import bromelia.statemachine as sm
+        # timing only: a coarser state-machine tick makes a virtual second 50x cheaper to simulate
+        self._saved_ticker = sm.STATE_MACHINE_TICKER
+        sm.STATE_MACHINE_TICKER = self.ticker
         self.patch.__enter__()
         self.sched.register_driver()
         DiameterRequest.hop_by_hop_identifiers.clear()
@@ -125,6 +130,8 @@ class World:
             self.unreaped = self.sched.kill_all()
         finally:
             self.patch.__exit__(et, ev, tb)
+            import bromelia.statemachine as sm
+            sm.STATE_MACHINE_TICKER = self._saved_ticker
         return False
 
     # ------------------------------------------------------------------ app-side helpers (each runs in a controlled thread)
